@@ -158,6 +158,12 @@ type vH struct {
 
 func vNewH(t vTable) *vH {
 	h := &vH{table: t, flat: vFlatten(t)}
+	vMinSegs = 0
+	for _, f := range h.flat {
+		if len(f.toks) > vMinSegs {
+			vMinSegs = len(f.toks)
+		}
+	}
 	h.cond = make([]bool, len(h.flat))
 	for i, f := range h.flat {
 		h.cond[i] = true
